@@ -35,7 +35,8 @@ type Script struct {
 	// 2 past its deadline), bits 2-3 the integers (0 unique sentinels, 1 all zero, 2 all -1,
 	// 3 zero then -1: the "whole blob" range), bit 4 empty strings instead of sentinels,
 	// bits 5-6 further integers when bits 2-3 are 0 (1 all -2, 2 math.MinInt64, 3 math.MaxInt64),
-	// bit 7 the recorders' error results wrap ErrUnsupported.
+	// bit 7 the recorders' error results wrap ErrUnsupported, bit 8 strings that contain format verbs,
+	// bit 9 the set listing functions return a nil sequence.
 	Args int `json:"args,omitempty"`
 }
 
@@ -125,6 +126,9 @@ func argsFor(t reflect.Type, salt int, shape int) []reflect.Value {
 			if shape&16 != 0 {
 				tag = ""
 			}
+			if shape&256 != 0 {
+				tag = "100%s%d%w%/" + tag // format verbs in a name are just characters
+			}
 			args[i] = reflect.ValueOf(tag).Convert(at)
 		case at.Kind() == reflect.Int64 || at.Kind() == reflect.Int:
 			n := int64(salt*1000 + i)
@@ -160,11 +164,13 @@ func argsFor(t reflect.Type, salt int, shape int) []reflect.Value {
 }
 
 // resultsFor builds the unique sentinel results the recorder for field fi returns.
-func resultsFor(t reflect.Type, fi int, unsup bool) []reflect.Value {
+func resultsFor(t reflect.Type, fi int, unsup bool, nilSeq ...bool) []reflect.Value {
 	outs := make([]reflect.Value, t.NumOut())
 	for i := range outs {
 		ot := t.Out(i)
 		switch {
+		case (ot == seqStrType || ot == seqDscType) && len(nilSeq) > 0 && nilSeq[0]:
+			outs[i] = reflect.Zero(ot) // a set function may return a nil sequence: that is its result
 		case ot == errType:
 			outs[i] = reflect.ValueOf(error(&sentinelErr{id: fi, unsup: unsup})).Convert(errType)
 		case ot == brType:
@@ -203,11 +209,11 @@ type world struct {
 	results  [][]reflect.Value
 }
 
-func newWorld(unsup bool) *world {
+func newWorld(unsup bool, nilSeq ...bool) *world {
 	w := &world{}
 	for i, f := range fields {
 		i := i
-		res := resultsFor(f.typ, i, unsup)
+		res := resultsFor(f.typ, i, unsup, nilSeq...)
 		w.results = append(w.results, res)
 		w.recorder = append(w.recorder, reflect.MakeFunc(f.typ, func(args []reflect.Value) []reflect.Value {
 			w.calls = append(w.calls, call{i, args})
@@ -273,12 +279,15 @@ func drainSeq(v reflect.Value) (items []any, errs []error, calls int) {
 	return
 }
 
-var w0, w1 = newWorld(false), newWorld(true)
+var w0, w1, w2 = newWorld(false), newWorld(true), newWorld(false, true)
 
 func run(s Script, v *vt.V) {
 	w := w0
 	if s.Args&128 != 0 {
 		w = w1 // the set functions' errors wrap ErrUnsupported: they are results like any other
+	}
+	if s.Args&512 != 0 {
+		w = w2 // the set listing functions return a nil sequence
 	}
 	w.calls, w.newErrs = w.calls[:0], w.newErrs[:0]
 	if s.Method < 0 || s.Method >= len(fields) {
@@ -338,6 +347,13 @@ func run(s Script, v *vt.V) {
 			}
 		}
 		for i := range outs {
+			if outs[i].Kind() == reflect.Func && w.results[s.Method][i].IsNil() {
+				if !outs[i].IsNil() {
+					v.Failf("wrong-results", "%s is set and returned a nil sequence; the table returned another one", fd.method)
+					return
+				}
+				continue
+			}
 			if outs[i].Kind() == reflect.Func {
 				// closures cannot be compared: drain both and compare what they yield
 				gi, ge, gn := drainSeq(outs[i])
@@ -470,7 +486,7 @@ var propRandom = &vt.Prop[Script]{
 			Set:      rapid.Uint64Range(0, uint64(1)<<uint(len(fields))-1).Draw(t, "set"),
 			NewError: rapid.Bool().Draw(t, "newError"),
 			Method:   rapid.IntRange(0, len(fields)-1).Draw(t, "method"),
-			Args:     rapid.SampledFrom([]int{0, 0, 1, 2, 4, 8, 12, 16, 13, 30, 32, 64, 96, 33, 80, 128, 128, 140}).Draw(t, "args"),
+			Args:     rapid.SampledFrom([]int{0, 0, 1, 2, 4, 8, 12, 16, 13, 30, 32, 64, 96, 33, 80, 128, 128, 140, 256, 256, 257, 512, 512, 640}).Draw(t, "args"),
 		}
 	},
 	Run: run,
@@ -479,7 +495,7 @@ var propRandom = &vt.Prop[Script]{
 var propStructured = &vt.Prop[Script]{
 	ID:   "C20",
 	Name: "FuncsStructured",
-	Rule: "enumeration of the assignments the property names: each method alone, all-but-one, all, none, every pair (called method's field, one neighbour) in all four set-states, nil table; x with/without NewError x all methods x ten argument / result shapes (incl. set functions whose error result wraps ErrUnsupported) (live, cancelled and expired contexts, zero / -1 / -2 / minimal / maximal integers, the (0,-1) range, empty strings)",
+	Rule: "enumeration of the assignments the property names: each method alone, all-but-one, all, none, every pair (called method's field, one neighbour) in all four set-states, nil table; x with/without NewError x all methods x twelve argument / result shapes (incl. set functions whose error result wraps ErrUnsupported or whose sequence result is nil, and names that contain format verbs) (live, cancelled and expired contexts, zero / -1 / -2 / minimal / maximal integers, the (0,-1) range, empty strings)",
 	Run:  run,
 }
 
@@ -602,7 +618,7 @@ func TestPropStructured(t *testing.T) {
 		}
 		for m := 0; m < n; m++ {
 			for _, ne := range []bool{false, true} {
-				for _, shape := range []int{0, 1, 2, 12, 16, 29, 32, 64, 96, 128} {
+				for _, shape := range []int{0, 1, 2, 12, 16, 29, 32, 64, 96, 128, 256, 512} {
 					if !emit(Script{Nil: true, NewError: ne, Method: m, Args: shape}) {
 						return
 					}
